@@ -158,7 +158,11 @@ def z_factor_hallyarbrough(pressure: float, temperature: float) -> float:
     t = 1 / temperature
     y = 0.001
     fdum = 1
-    while np.abs(fdum) > 0.001:
+    # the residual starts at about the size of its pressure term, so the stopping
+    # tolerance has to follow it: an absolute one accepts the starting guess at low pressure
+    pressure_term = 0.06125 * pressure * t * np.exp(-1.2 * (1 - t) ** 2)
+    tolerance = 0.001 * min(1.0, pressure_term) if pressure_term > 0 else 0.001
+    while np.abs(fdum) > tolerance:
         fdum = (
             -0.06125 * pressure * t * np.exp(-1.2 * (1 - t) ** 2)
             + (y + y**2 + y**3 - y**4) / (1 - y) ** 3
